@@ -24,12 +24,13 @@ class PC:
     mKeyStrings = SP()
 
 
-def table_bytes(K, complex_at, DT, DA):
-    """raw entry bytes per resource: plain Res_value entries; entry `complex_at` is a ResTable_map_entry with two items"""
+def table_bytes(K, complex_at, DT, DA, ncfg=1):
+    """raw entry bytes per (resource, configuration): plain Res_value entries; entry `complex_at` is a ResTable_map_entry
+    with two items.  With ncfg=2 every resource exists in the default and in a `de` configuration."""
     out = []
     slot = 0
-    for i in range(K):
-        if i == complex_at:
+    for i in range(K * ncfg):
+        if i == complex_at and ncfg == 1:
             raw = list(struct.pack('<HHI', 16, 1, i)) + list(struct.pack('<II', 0, 2))
             for _ in range(2):
                 raw += list(struct.pack('<I', 0x01000000 + slot)) + list(struct.pack('<HB', 8, 0)) + [DT[slot]] + le_bytes(DA[slot], 4)
@@ -54,16 +55,18 @@ def flatten(res):
     return out
 
 
-def nslots(K, complex_at):
-    return K + (1 if complex_at is not None and complex_at < K else 0)
+def nslots(K, complex_at, ncfg=1):
+    return K * ncfg + (1 if complex_at is not None and complex_at < K and ncfg == 1 else 0)
 
 
-def ref_reachable(K, complex_at, dt, da):
+def ref_reachable(K, complex_at, dt, da, ncfg=1):
     """concrete reference: literals reachable from entry 0; returns (list of (slot index) literal slots, terminates=True)"""
     slots_of = {}
     s = 0
     for i in range(K):
-        if i == complex_at:
+        if ncfg == 2:
+            slots_of[i] = [2 * i, 2 * i + 1]
+        elif i == complex_at:
             slots_of[i] = [s, s + 1]
             s += 2
         else:
@@ -91,9 +94,10 @@ def ref_reachable(K, complex_at, dt, da):
 
 
 def job(jc, spec):
-    K, complex_at = spec
+    K, complex_at = spec[0], spec[1]
+    ncfg = spec[2] if len(spec) > 2 else 1
     axml = common.axmlmod()
-    n = nslots(K, complex_at)
+    n = nslots(K, complex_at, ncfg)
     DT = [fresh_byte('dt%d' % i) for i in range(n)]
     DA = [fresh_uint('da%d' % i, 32) for i in range(n)]
     ids = [BASE + i for i in range(K)]
@@ -103,25 +107,32 @@ def job(jc, spec):
         # a reference points at one of the table's entries, at a missing id, or is the null reference
         pre.append(z3.Implies(DT[i].e == TYPE_REFERENCE, z3.Or([DA[i].e == r for r in ids] + [DA[i].e == BASE + 0x77, DA[i].e == 0])))
     eng = jc.new_engine(pre=pre)
-    label = 'K=%d complex_at=%s' % (K, complex_at)
-    raws = table_bytes(K, complex_at, DT, DA)
+    label = 'K=%d complex_at=%s configurations=%d' % (K, complex_at, ncfg)
+    raws = table_bytes(K, complex_at, DT, DA, ncfg)
 
     def go():
         p = axml.ARSCParser.__new__(axml.ARSCParser)
         p.analyzed = True
         cfg = axml.ARSCResTableConfig.default_config()
+        cfgs = [cfg] if ncfg == 1 else [cfg, CFG_DE[0]]
         p.resource_values = {}
         for i, rid in enumerate(ids):
-            ate = axml.ARSCResTableEntry(axml.io.BytesIO(SBytes(raws[i])), 0, len(raws[i]), rid, PC())
-            p.resource_values[rid] = {cfg: ate}
+            p.resource_values[rid] = {}
+            for c, cf in enumerate(cfgs):
+                raw = raws[i * ncfg + c]
+                p.resource_values[rid][cf] = axml.ARSCResTableEntry(axml.io.BytesIO(SBytes(raw)), 0, len(raw), rid, PC())
         depth = [0]
+        calls = [0]
         RR = axml.ARSCParser.ResourceResolver
         orig = RR._resolve_into_result
 
         def wrapped(self, result, res_id, config):
             depth[0] += 1
-            if depth[0] > K + 2:
-                raise UnwindExceeded("resolution depth > %d" % (K + 2))
+            calls[0] += 1
+            # generous unwinding bound: with a correct cycle guard the depth never exceeds K+1 and the number of
+            # resolution steps never exceeds the number of reference slots + 1
+            if depth[0] > 3 * K + 3 or calls[0] > 4 * (n + 1) * (K + 1):
+                raise UnwindExceeded("resolution depth %d / %d steps" % (depth[0], calls[0]))
             try:
                 return orig(self, result, res_id, config)
             finally:
@@ -134,7 +145,7 @@ def job(jc, spec):
         return flatten(res)
 
     def ext(m):
-        return dict(K=K, complex_at=complex_at, dt=[mval(m, x) for x in DT], da=[mval(m, x) & 0xFFFFFFFF for x in DA])
+        return dict(K=K, complex_at=complex_at, ncfg=ncfg, dt=[mval(m, x) for x in DT], da=[mval(m, x) & 0xFFFFFFFF for x in DA])
     for pc, (kind, r) in eng.explore(go, keep_pcs=True):
         jc.reached('explored')
         if kind == 'exc':
@@ -145,7 +156,7 @@ def job(jc, spec):
         m = eng.solve(pc)
         dt = [mval(m, x) for x in DT]
         da = [mval(m, x) & 0xFFFFFFFF for x in DA]
-        lits = ref_reachable(K, complex_at, dt, da)
+        lits = ref_reachable(K, complex_at, dt, da, ncfg)
         terms = []
         ok = True
         for v in r:
@@ -186,16 +197,21 @@ def _visited_slots(K, complex_at, dt, da):
     return out
 
 
+CFG_DE = [None]
+
+
 def run(ctx):
-    common.axmlmod()
+    axml = common.axmlmod()
+    axml.ord = __import__('vf.sstr', fromlist=['sx_ord']).sx_ord
+    CFG_DE[0] = axml.ARSCResTableConfig(None, locale='de')
     ctx.functions_encoded = FUNCS
-    specs = [(1, None), (2, None), (3, None), (3, 1), (4, 0)] + ([(4, None), (5, None), (5, 2)] if ctx.thorough else [])
-    ctx.bounds = dict(tables=[dict(entries=k, complex_entry_at=c) for k, c in specs],
+    specs = [(1, None), (2, None), (3, None), (3, 1), (4, 0), (2, None, 2)] + ([(4, None), (5, None), (5, 2), (3, None, 2)] if ctx.thorough else [])
+    ctx.bounds = dict(tables=[dict(entries=s_[0], complex_entry_at=s_[1], configurations=(s_[2] if len(s_) > 2 else 1)) for s_ in specs],
                       per_value='type in {reference, int_dec}, reference target any table entry / a missing id / null, literal any 32-bit word',
-                      unwinding='resolution depth <= K+2')
+                      unwinding='resolution depth <= 3K+3 and <= 4(n+1)(K+1) resolution steps')
     ctx.stubs = ['SymIO / SymStruct', 'table built from real ARSCResTableEntry objects placed in resource_values (no file parse)',
                  'string pools stubbed', 'format markers']
-    ctx.assumptions = ['one (default) configuration per resource', 'a reference met again while it is being resolved is not followed again']
+    ctx.assumptions = ['one configuration per resource, or two (default and de) in the configurations=2 tables, resolved with config=None', 'a reference met again while it is being resolved is not followed again']
     ctx.outside_claim = ['cycles longer than 5, several configurations, compact entries']
     cases = [[2, None, [1, 1], [BASE + 1, BASE]], [3, 1, [1, 16, 1, 16], [BASE + 1, 7, BASE + 2, 9]], [1, None, [16], [5]],
              [2, None, [1, 16], [BASE + 1, 0xffffffff]], [3, None, [1, 1, 1], [BASE + 1, BASE + 2, BASE + 0x77]]]
@@ -203,18 +219,21 @@ def run(ctx):
     ctx.pmap(job, specs)
 
 
-def _resolve_concrete(K, complex_at, dt, da):
+def _resolve_concrete(K, complex_at, dt, da, ncfg=1):
     import io
     from androguard.core import axml
-    raws = table_bytes(K, complex_at, dt, [SInt.of(x) for x in da])
+    raws = table_bytes(K, complex_at, dt, [SInt.of(x) for x in da], ncfg)
     p = axml.ARSCParser.__new__(axml.ARSCParser)
     p.analyzed = True
     cfg = axml.ARSCResTableConfig.default_config()
+    cfgs = [cfg] if ncfg == 1 else [cfg, axml.ARSCResTableConfig(None, locale='de')]
     p.resource_values = {}
     for i in range(K):
-        raw = bytes(x if isinstance(x, int) else x.concretize() for x in raws[i])
-        f = axml.io.BufferedReader(axml.io.BytesIO(raw)) if hasattr(axml.io, 'BufferedReader') else axml.io.BytesIO(raw)
-        p.resource_values[BASE + i] = {cfg: axml.ARSCResTableEntry(f, 0, len(raw), BASE + i, PC())}
+        p.resource_values[BASE + i] = {}
+        for c, cf in enumerate(cfgs):
+            raw = bytes(x if isinstance(x, int) else x.concretize() for x in raws[i * ncfg + c])
+            f = axml.io.BufferedReader(axml.io.BytesIO(raw)) if hasattr(axml.io, 'BufferedReader') else axml.io.BytesIO(raw)
+            p.resource_values[BASE + i][cf] = axml.ARSCResTableEntry(f, 0, len(raw), BASE + i, PC())
     return flatten(p.get_resolved_res_configs(BASE))
 
 
@@ -229,11 +248,11 @@ def concrete(c):
 def replay(w):
     sys.setrecursionlimit(600)
     try:
-        got = _resolve_concrete(w['K'], w['complex_at'], w['dt'], w['da'])
+        got = _resolve_concrete(w['K'], w['complex_at'], w['dt'], w['da'], w.get('ncfg', 1))
     except RecursionError:
         return True, 'resolving 0x%08x recurses without end (types %r, data %r)' % (BASE, w['dt'], [hex(x) for x in w['da']])
     except Exception as e:
         return True, 'resolution raised %r' % e
-    lits = ref_reachable(w['K'], w['complex_at'], w['dt'], w['da'])
+    lits = ref_reachable(w['K'], w['complex_at'], w['dt'], w['da'], w.get('ncfg', 1))
     exp = ['%d' % (w['da'][s] - (1 << 32) if w['da'][s] >> 31 else w['da'][s]) for s in lits]
     return got != exp, 'resolved %r, reachable literals %r (types %r, data %r)' % (got, exp, w['dt'], [hex(x) for x in w['da']])
